@@ -610,7 +610,7 @@ pub fn run(run: &Run) {
         }
         Tier::Thorough => {
             let all: Vec<usize> = (0..=300).collect();
-            machine_fp::<Fr>(run, "c07.Fr.all-bits", menu_fp::<Fr>(run.tier, run.seed, &all, false), 2);
+            machine_fp::<Fr>(run, "c07.Fr.all-bits", menu_fp::<Fr>(run.tier, run.seed, &all, false), 3);
             machine_fp::<Fr>(run, "c07.Fr", menu_fp::<Fr>(run.tier, run.seed, &QUICK_BITS, true), 5);
             machine_fp::<Fq>(run, "c07.Fq", menu_fp::<Fq>(run.tier, run.seed, &[], true), 8);
             machine2(run, 8);
@@ -626,8 +626,8 @@ pub fn meta(run: &Run) -> Meta {
                one distinct non-trivial case (it is reached by a distinct shortest operation sequence)"
             .into(),
         engine: "sm9mc-bfs".into(),
-        bounds: json!({"depth": run.tier.pick(json!({"Fr":4,"Fq":5,"Fq2":5}), json!({"Fr.all-bits":2,"Fr":5,"Fq":8,"Fq2":8})),
-                       "bit_indices": run.tier.pick(json!(QUICK_BITS), json!("0..=300 at depth 2; quick set at depth 4"))}),
+        bounds: json!({"depth": run.tier.pick(json!({"Fr":4,"Fq":5,"Fq2":5}), json!({"Fr.all-bits":3,"Fr":5,"Fq":8,"Fq2":8})),
+                       "bit_indices": run.tier.pick(json!(QUICK_BITS), json!("0..=300 at depth 3; quick set at depth 5"))}),
         assumptions: vec![
             "for Fr::random only canonicity / == / is_zero are required; the stream-to-value mapping is not part of the property".into(),
             "setting a bit index >= 256 may be ignored or add 2^i mod r; clearing it must be a no-op".into(),
